@@ -1870,3 +1870,39 @@ def header_arms(R, g, rd, start):
                 return e
             out.append((n, fmt, [sub(a) for a in args], l))
     return out
+
+
+# ------------------------------------------------------------------------------ canonical value text
+def canon(R, g, n, e, depth=2):
+    """Canonical text of value expression e at CFG node n: locals replaced by what they were assigned (aliases such as
+    `websocket = self.websocket`, flags read into locals), and unmodified parameters of a function that has exactly
+    one call site in the package replaced by that call's argument (canonicalised in the caller)."""
+    if e is None:
+        return 'None'
+    e2 = subst_locals(R, g, n, e, pure_only=False)
+    fi = g.ctx.func
+    rd = g_rd(g)
+    if depth > 0 and hasattr(fi, 'params'):
+        ps = [x.id for x in ast.walk(e2) if isinstance(x, ast.Name) and isinstance(x.ctx, ast.Load)
+              and x.id in fi.params and x.id not in ('self', 'cls') and rd.defs_at(n, x.id) == {g.entry}]
+        if ps:
+            callers = [(cx, call) for (cx, call, t) in R.types.callers.get(fi.qual, [])
+                       if not (cx.func.cls is not None and cx.recv != cx.func.cls.qual)]
+            if len(callers) == 1:
+                cx, call = callers[0]
+                cg = R.cfg(cx.func.qual, cx.recv)
+                cn = [m for m in cg.live_nodes() if call in m.calls]
+                if cn:
+                    mapping = {}
+                    for p in set(ps):
+                        a = arg_of(call, fi, p)
+                        if a is None:
+                            a = default_of(fi, p)
+                        if a is not None:
+                            try:
+                                mapping[p] = ast.parse(canon(R, cg, cn[0], a, depth - 1), mode='eval').body
+                            except SyntaxError:
+                                pass
+                    if mapping:
+                        e2 = _Subst(lambda nm: mapping.get(nm)).visit(copy.deepcopy(e2))
+    return U(e2)
